@@ -85,7 +85,7 @@ Theorem C11_cache_transparent_repaired : forall H w h,
   (forall x y, H x = H y -> x = y) -> wf_history h ->
   g_F4 fx_all H h = false -> g_F6 h = false -> g_F7 h = false ->
   map sr_out (run_cached fx_all H w [] h) = map fst (run_fresh w h).
-Proof. intros H w h Hi W. apply cache_transparent; auto. Qed.
+Proof. exact cache_transparent_repaired. Qed.
 Print Assumptions C11_cache_transparent_repaired.
 
 (** the hypotheses of the two main theorems are satisfied by a history with
@@ -217,6 +217,13 @@ Theorem C11_hc_cache_transparent : forall fx8 H c h,
   map sr_out (hc_run fx8 H c [] h) = map (fun x => OAllow (hc_result c x)) h.
 Proof. exact hc_cache_transparent. Qed.
 Print Assumptions C11_hc_cache_transparent.
+
+(** with fixes/C11-F8.diff (no response with Vary or to a non-GET/HEAD request is stored,
+    only GET/HEAD requests are looked up) the RFC 7234 cache is transparent on EVERY history *)
+Theorem C11_hc_cache_transparent_repaired : forall H c h,
+  map sr_out (hc_run true H c [] h) = map (fun x => OAllow (hc_result c x)) h.
+Proof. exact hc_cache_transparent_repaired. Qed.
+Print Assumptions C11_hc_cache_transparent_repaired.
 
 Theorem C11_F8_refuted :
   exists c a b, g_F8 false c [a; b] = true /\
